@@ -180,3 +180,45 @@ Fixpoint lex (instr : bool) (acc : str) (s : str) {struct s} : option (list tok)
   end.
 
 Definition json_tokens (s : str) : option (list tok) := lex false [] s.
+
+(* ---------------------------------------------------------------------------------- *)
+(* embedded template values and nested conversions: what a conversion must produce      *)
+(* ---------------------------------------------------------------------------------- *)
+(* From the property text and the docs of Serde / serializing_for_value(): a template value
+   embedded in serialised data comes back as the very same value, wherever it stands and whatever
+   the surrounding Serialize impls do (including converting other data into template values, on
+   this or another thread, successfully or not); serializing_for_value() is true throughout a
+   conversion.  No thread-local state appears here. *)
+Definition tr (r : res value) : res value := match r with RErr => ROk VInvalid | r => r end.
+
+Fixpoint ideal (x : node) : res value :=
+  match x with
+  | NInt z => ROk (VI64 z)
+  | NEmb v => ROk v
+  | NProbe => ROk (VBool true)
+  | NSeq l => match ideals l with ROk vs => ROk (VSeq false vs) | RErr => RErr | RPanic => RPanic end
+  | NTuple l => match ideals l with ROk vs => ROk (VSeq true vs) | RErr => RErr | RPanic => RPanic end
+  | NMap l | NStruct l => match ideals l with ROk vs => ROk (VMap (with_keys vs)) | RErr => RErr | RPanic => RPanic end
+  | NNVar y => match tr (ideal y) with ROk v => ROk (VMap [(variant_key, v)]) | r => r end
+  | NTVar l => match ideals l with ROk vs => ROk (VMap [(variant_key, VSeq false vs)]) | RErr => RErr | RPanic => RPanic end
+  | NSVar l => match ideals l with ROk vs => ROk (VMap [(variant_key, VMap (with_keys vs))]) | RErr => RErr | RPanic => RPanic end
+  | NSome y => tr (ideal y)
+  | NNested y => tr (ideal y)
+  | NNestedDrop y => match tr (ideal y) with ROk _ => ROk VNone | r => r end
+  | NNestedCatch y | NThread y => match tr (ideal y) with ROk v => ROk v | _ => ROk VNone end
+  | NFail => RErr
+  | NPanic => RPanic
+  end
+with ideals (l : nodes) : res (list value) :=
+  match l with
+  | NNil => ROk []
+  | NCons y r =>
+      match ideal y with
+      | RPanic => RPanic
+      | r1 => let v := match r1 with ROk v => v | _ => VInvalid end in
+              match ideals r with ROk vs => ROk (v :: vs) | RErr => RErr | RPanic => RPanic end
+      end
+  end.
+
+(* Value::from(Serde(y)) *)
+Definition ideal_convert (y : node) : res value := tr (ideal y).
